@@ -37,14 +37,14 @@ const jw = "internal/encoding/json.(*Encoder)."
 // Writes whose text is produced by the library itself and is ASCII by
 // construction, so the writer's only error (invalid UTF-8) cannot occur.
 var jsonWriteDropOK = map[string]string{
-	"encoding/protojson.encoder.marshalAny -> " + jw + "WriteName (\"@type\")":                                  "constant ASCII name",
-	"encoding/protojson.encoder.marshalAny -> " + jw + "WriteName (\"value\")":                                  "constant ASCII name",
-	"encoding/protojson.encoder.marshalDuration -> " + jw + "WriteString (x + \"s\")":                           "x is fmt.Sprintf of a sign and two integers with a constant format: ASCII digits, '-' and '.'",
-	"encoding/protojson.encoder.marshalTimestamp -> " + jw + "WriteString (x + \"Z\")":                          "x is time.Time.Format with a constant numeric layout: ASCII",
-	"encoding/protojson.encoder.marshalFieldMask -> " + jw + "WriteString (strings.Join(paths, \",\"))":         "every path passed protoreflect.FullName.IsValid (ASCII identifiers and dots) before being appended",
-	"encoding/protojson.encoder.marshalSingular -> " + jw + "WriteString (val.String())":                          "in the case clause of the 64-bit integer kinds: Value.String() is the decimal text of the integer",
+	"encoding/protojson.encoder.marshalAny -> " + jw + "WriteName (\"@type\")":                                             "constant ASCII name",
+	"encoding/protojson.encoder.marshalAny -> " + jw + "WriteName (\"value\")":                                             "constant ASCII name",
+	"encoding/protojson.encoder.marshalDuration -> " + jw + "WriteString (x + \"s\")":                                      "x is fmt.Sprintf of a sign and two integers with a constant format: ASCII digits, '-' and '.'",
+	"encoding/protojson.encoder.marshalTimestamp -> " + jw + "WriteString (x + \"Z\")":                                     "x is time.Time.Format with a constant numeric layout: ASCII",
+	"encoding/protojson.encoder.marshalFieldMask -> " + jw + "WriteString (strings.Join(paths, \",\"))":                    "every path passed protoreflect.FullName.IsValid (ASCII identifiers and dots) before being appended",
+	"encoding/protojson.encoder.marshalSingular -> " + jw + "WriteString (val.String())":                                   "in the case clause of the 64-bit integer kinds: Value.String() is the decimal text of the integer",
 	"encoding/protojson.encoder.marshalSingular -> " + jw + "WriteString (base64.StdEncoding.EncodeToString(val.Bytes()))": "base64 alphabet: ASCII",
-	"encoding/protojson.encoder.marshalSingular -> " + jw + "WriteString (string(desc.Name()))":                   "an enum value name from a descriptor: a protobuf identifier (ASCII)",
+	"encoding/protojson.encoder.marshalSingular -> " + jw + "WriteString (string(desc.Name()))":                            "an enum value name from a descriptor: a protobuf identifier (ASCII)",
 }
 
 // R-JSON-PAIRS: every opening delimiter call is directly followed, in the same
